@@ -33,4 +33,34 @@ theorem head_not_blank_padded (ds : Bytes) (pad : Nat) (v : Nat) (h : parseHex d
   | nil => simp [parseHex] at h
   | cons c t => simpa using head_not_blank_of_parseHex (c :: t) v h
 
+/-- a run of hex digits contains no HTAB (the decoder's "no HTAB in the size line" guard never fires on a writer's encoding) -/
+theorem foldlM_hex_no_tab : ∀ (hx : Bytes) (n v : Nat),
+    hx.foldlM (fun n c => (hexDigitVal c).map (fun d => n * 16 + d)) n = some v → hx.any (fun c => c == 9) = false
+  | [], _, _, _ => rfl
+  | c :: t, n, v, h => by
+    simp only [List.foldlM_cons] at h
+    cases hd : hexDigitVal c with
+    | none => simp [hd] at h
+    | some d =>
+      simp only [hd, Option.map_some, Option.bind_some] at h
+      have hc : (c == 9) = false := by
+        have := hexDigitVal_not_blank c d hd
+        simp only [Bool.or_eq_false_iff] at this
+        exact this.2
+      simp only [List.any_cons, hc, Bool.false_or]
+      exact foldlM_hex_no_tab t _ v h
+
+theorem no_tab_of_parseHex (hx : Bytes) (v : Nat) (h : parseHex hx = some v) : hx.any (fun c => c == 9) = false := by
+  unfold parseHex at h
+  split at h
+  · cases h
+  · exact foldlM_hex_no_tab hx 0 v h
+
+theorem no_tab_padded (ds : Bytes) (pad : Nat) (v : Nat) (h : parseHex ds = some v) :
+    (ds ++ List.replicate pad 32).any (fun c => c == 9) = false := by
+  rw [List.any_append, no_tab_of_parseHex ds v h]
+  induction pad with
+  | zero => rfl
+  | succ k ih => simpa [List.replicate_succ] using ih
+
 end Hertz.Spec.Http
